@@ -10,12 +10,12 @@ TIERS = {'quick': 6000, 'thorough': 400000}
 RULE = ('one connected device, 2-3 concurrent actors (baton-scheduled real threads for AdbDevice with lock/IO yield points and line-level pre-emption in '
         'adb_device.py/hidden_helpers.py under coarse-random, PCT d<=3 and dense policies; asyncio tasks on a virtual-time loop for AdbDeviceAsync), each '
         'running 1-2 ops from {shell, exec_out, streaming_shell, stat, list, pull->BytesIO, push<-BytesIO}, plus the single-thread variant "partially consumed '
-        'streaming_shell + another op"; the device adversary picks which ready stream\'s packet goes on the wire next; timeouts >= 30 virtual s and latencies '
+        'streaming_shell + another op"; the device adversary picks which ready stream\'s packet goes on the wire next; in a quarter of the runs the transport writes short (positive per-call capacity); timeouts >= 30 virtual s and latencies '
         '<< timeouts so a timeout can only come from loss or deadlock. non-trivial = >= 1 context switch inside an operation and >= 1 packet read by a '
         'non-owner (parked in the store); distinct = event-log digests')
 ASSUMPTIONS = ['pre-emption is at line granularity inside adb_shell files only; asyncio interleavings are those FIFO scheduling allows',
                'K1 (known finding) is classified by its exact signature; any other deviation in the same run is a violation']
-EXPECT_PROBES = {'all': ['foreign_packet_parked', 'store_delivered', 'store_clse_parked', 'clse_dropped_for_live_stream', 'lock_contended', 'adversary_choice', 'preempt_line']}
+EXPECT_PROBES = {'all': ['short_writes', 'foreign_packet_parked', 'store_delivered', 'store_clse_parked', 'clse_dropped_for_live_stream', 'lock_contended', 'adversary_choice', 'preempt_line']}
 KINDS = ['shell', 'shell', 'exec_out', 'streaming_shell', 'stat', 'list', 'pull', 'push']
 OWN = ('wrong-result', 'unexpected-exception', 'timeout-instead-of-result', 'missing-exception', 'wrong-exception', 'hang', 'no-termination', 'deadlock',
        'wire-format', 'protocol', 'store-model', 'push-content', 'push-missing', 'push-incomplete', 'push-duplicate', 'push-extra', 'lock-held')
@@ -45,6 +45,8 @@ def generate(seed, tier):
                 op['path'] = '/data/local/tmp/a%d_%d' % (a, g.int(0, 999))
                 op['content']['size'] = min(op['content']['size'], 20000)
         actors.append(ops)
+    for f in d['fs'].values():
+        f['records'] = [max(r, 64) for r in f['records']]      # keep the number of packets (and traced steps) per run bounded
     if single:
         name = S.add_cmd(g, d, 200)
         d['cmds'][name]['cuts'] = [g.int(1, 20) for _ in range(g.int(2, 5))]
@@ -53,7 +55,7 @@ def generate(seed, tier):
     for plan in d['cut_plans']:
         if plan['policy'] in ('one', 'tiny'):
             plan['policy'] = g.pick(['record', 'straddle', 'random'])
-    cfg = {'frag': g.pick(['whole', 'whole', 'boundary', 'mixed']), 'p_empty': 0.0, 'call_cost': g.pick([1e-6, 1e-5])}
+    cfg = {'frag': g.pick(['whole', 'whole', 'boundary', 'mixed']), 'p_empty': 0.0, 'call_cost': g.pick([1e-6, 1e-5]), 'sched_step_cap': 1000000}
     pol = g.pick(['coarse', 'pct', 'pct', 'dense', 'dense'])
     cfg['sched'] = pol
     if pol == 'pct':
@@ -61,6 +63,13 @@ def generate(seed, tier):
         cfg['pct_k'] = g.pick([300, 1500, 6000])
     elif pol == 'dense':
         cfg['p_line'] = g.pick([0.003, 0.02, 0.1])
+    if g.chance(0.25):
+        for ops in actors:
+            for op in ops if not single else ops[0].get('nested', []):
+                if op['op'] == 'push':
+                    op['content']['size'] = min(op['content']['size'], 3000)
+        cfg['sched_step_cap'] = 1500000
+        cfg['short'] = 'pos'        # the transport accepts fewer bytes than offered (never nothing): messages are written in pieces
     if api == 'async':
         cfg['ayield'] = g.pick([0.0, 0.2, 0.6])
         cfg['task_order'] = g.pick([[0, 1, 2], [1, 0, 2], [2, 1, 0], [1, 2, 0]])
